@@ -19,7 +19,7 @@ FN = ['parsePkgLength', 'parseNumConstant', 'parseString', 'parseNameString', 'n
 class C12(flow.Spec):
     prop = 'C12'
     props_files = ['theories/Props/C12.v', 'theories/Props/C12_examples.v', 'theories/Props/C12_reader_trans.v']
-    model_targets = ['theories/Aml/RunC12.vo', 'theories/Aml/ParserProofsTop.vo', 'theories/Aml/ParserTotalTop.vo', 'theories/Aml/ParserTotalCalls.vo', 'theories/Aml/ParserTotalReloc.vo', 'theories/Aml/ParserTotalMerge.vo', 'theories/Aml/ParserTotalResolve.vo', 'theories/Aml/ParserTotalDeferW.vo', 'theories/Aml/ParserTotalDeferV.vo', 'theories/Aml/ParserTotalChain.vo', 'theories/Aml/ParserTotalPass2.vo', 'theories/Aml/ParserTotalPass1.vo']
+    model_targets = ['theories/Aml/RunC12.vo', 'theories/Aml/ParserProofsTop.vo', 'theories/Aml/ParserTotalTop.vo', 'theories/Aml/ParserTotalCalls.vo', 'theories/Aml/ParserTotalReloc.vo', 'theories/Aml/ParserTotalMerge.vo', 'theories/Aml/ParserTotalResolve.vo', 'theories/Aml/ParserTotalDeferW.vo', 'theories/Aml/ParserTotalDeferV.vo', 'theories/Aml/ParserTotalChain.vo', 'theories/Aml/ParserTotalPass2.vo', 'theories/Aml/ParserTotalPass1.vo', 'theories/Aml/ParserTotalLoad.vo']
     pkg = 'device/acpi/aml'
     harness = [os.path.join(H, 'zz_verif_c12_test.go'), os.path.join(H, 'zz_verif_amlcommon_test.go')]
     test = 'TestVerifC12$'
@@ -116,18 +116,21 @@ class C12(flow.Spec):
                'connectNamedObjArgs preserves SH (abstract invariant threaded through the pass, ParserTotalConn2.v / ParserTotalPass2.v).  The ONLY step of '
                'ParseAML not covered by a chained no-panic theorem is "the first pass establishes SH"',
                'C12_parse_total_partial_first_pass_shape: the FIRST PASS from the initial state of any table over any pool with R, valid indexes, live '
-               'parentless ScopeBlock root, TM2, no free slot and no object carrying the new handle never panics and on success leaves an empty scope '
-               'stack and LI (root facts, TM2 for all Methods incl. the new ones, PEND, the structure AND the names of the Scope directives, no free slot) '
-               '- frame version of the first pass (ParserTotalFirst2.v), judgements bn / nfk (ParserTotalBenign.v), invariant step (ParserTotalPass1.v).  '
+               'parentless ScopeBlock root, TM2, lead-less names in the free slots (FN) and no object carrying the new handle never panics and on success leaves an empty scope '
+               'stack and LI (root facts, TM2 for all Methods incl. the new ones, PEND, the structure AND the names of the Scope directives, FN, path objects of the directives are new) '
+               '- frame version of the first pass (ParserTotalFirst2.v), judgements bn (ParserTotalBenign.v) and fk (ParserTotalFreeName.v: free slots keep lead-less names), invariant step (ParserTotalPass1.v).  '
                'C12_parse_total_namestring_good: a four-byte []byte returned by parseNameString starts with a name character, \\ or ^ '
                '(ParserTotalNameLex.v); the judgement gpk (ParserTotalGoodPath.v, a small pre/post logic over the tree) carries "every name-path '
                'object holds a good path" through the first pass.  '
                'C12_parse_total_never_panics / C12_parse_total_parseAML_never_panics: END TO END and UNCONDITIONAL - parseAML_body (all six passes, '
                'ANY fuel) resp. parseAML from init_state of any table over any pool NEVER panics and re-establishes R / valid indexes / slices-inside; '
                'the hypotheses speak only about the pool before the call and about sizes: R, valid indexes, live parentless ScopeBlock root, TM2, '
-               'NO FREE SLOT (newObject keeps the name of a reused free slot and mergeScopeDirectives reads it), []byte typing, good paths in the '
-               'name-path objects already in the pool, slices inside the earlier tables, fresh handle, image of at most 2^28 bytes, and an explicit '
+               'every FREE SLOT carries a name without lead character (newObject keeps the name of a reused free slot; with a stale lead name Find can resolve a Scope directive to itself and free() panics), []byte typing, '
+               'slices inside the earlier tables, fresh handle, image of at most 2^28 bytes, and an explicit '
                'quadratic memory bound.  Fuel exhaustion is NOT excluded (fuel is not analysed)',
+               'C12_parse_total_first_table_never_panics / C12_parse_total_load_first_table_never_panics: the FIRST TABLE with no abstract hypothesis: '
+               'over the pool CreateDefaultScopes builds from the empty tree, ParseAML of the image of ANY payload of at most 10000 bytes never panics '
+               '(load [payload] never has outcome class 2); the size bound is what the quadratic memory hypothesis allows (ParserTotalLoad.v)',
                'the unproved parts of C12_full_parse_total (no Panic / OutOfFuel and R for the later passes, outcome class of load) are covered '
                'by the correspondence of the extracted model (explicit Panic / OutOfFuel outcomes, all passes modelled) with the real parser '
                'and by the harness monitors (outcome class, watchdog, independent link checker, PrettyPrint)',
